@@ -205,7 +205,7 @@ def c02(run):
         exp = 'ok ' + rock.dump_program(prog)
         for j in range(k):
             sp = rock.Speller(rng, noise=rng.choice([0, 0.15, 0.4]), comments=rng.choice([0, 0.05, 0.2]),
-                              recase=rng.choice([0, 0.2, 0.6]))
+                              recase=rng.choice([0, 0.2, 0.6]), multiline_comments=rng.random() < 0.5)
             cases.append((prog, sp.program(prog), exp))
     reqs = ['parse ' + hx(t) for _, t, _ in cases]
     m, im = run.tie(reqs, proj=lambda r: rock.erase_positions(r).split(' x')[0] if r.startswith('err') else rock.erase_positions(r),
@@ -295,7 +295,7 @@ def c13(run):
         p2, cat, line = inject(rng, prog)
         # an if-with-else that is the last statement of a function ends the function body:
         # a fault inserted after it belongs to the enclosing block, still a statement boundary
-        sp = FaultSpeller(rng, comments=rng.choice([0, 0.1]), noise=rng.choice([0, 0.2]))
+        sp = FaultSpeller(rng, comments=rng.choice([0, 0.1, 0.2]), noise=rng.choice([0, 0.2]), multiline_comments=True)
         text = sp.program(p2)
         off = text.index('\x00')
         text = text.replace('\x00', '')
@@ -347,7 +347,7 @@ def gen_poetic_line(rng):
     """a poetic number literal as source words; returns (text, digits, dotpos) where digits are
     computed from the WORDS as the property states (independent of the tokenisation)"""
     kws = sorted(w for w in rock.KEYWORDS)
-    n = rng.randint(1, 10)
+    n = rng.randint(1, 10) if rng.random() < 0.8 else rng.randint(11, 40)
     text = ''
     digits = []
     dotpos = None
@@ -424,6 +424,8 @@ def c11(run):
     cases.append(('num', "X is (c)'s foo\nsay X\n", [1, 3], None, "(c)'s foo"))
     cases.append(('num', "X is a . (c)'re b\nsay X\n", [1, 2, 1], 1, "a . (c)'re b"))
     cases.append(('num', 'X is abcdefghij. ' + 'abcdefghij ' * 322 + 'abcde\nsay X\n', [0] + [0] * 322 + [5], 1, 'F2-underflow-323'))
+    # (repaired D17) leading zero digits of infinite weight: 309 ten-letter words and a five-letter one spell 5
+    cases.append(('num', 'X is ' + 'abcdefghij ' * 309 + 'abcde\nsay X\n', [0] * 309 + [5], None, 'zeros-of-infinite-weight'))
     reqs = ['parse ' + hx(c[1]) for c in cases]
     m, im = run.tie(reqs, proj=rock.erase_positions, functional=True, desc=lambda i: {'text': cases[i][1]})
     # values are also observed through execution
